@@ -8,11 +8,11 @@ def hx(s):
 
 def corr(src_pod="", dst_pod="", ingress=0, egress=0, extra=None, node=None):
     """correlate-field tokens in configuration order"""
-    e = dict(src_ns="", src_node="", dst_ns="", dst_node="", cluster="00000000", svc_port=0, prio=0)
+    e = dict(src_ns="", src_node="", dst_ns="", dst_node="", cluster="00000000", svc_port=0, prio=0, cluster6="00" * 16)
     if extra:
         e.update(extra)
     return ",".join([hx(src_pod), hx(e["src_ns"]), hx(e["src_node"]), hx(dst_pod), hx(e["dst_ns"]), hx(e["dst_node"]),
-                     "x" + e["cluster"], "n%d" % e["svc_port"], "n%d" % ingress, "n%d" % egress, "n%d" % e["prio"]])
+                     "x" + e["cluster"], "n%d" % e["svc_port"], "n%d" % ingress, "n%d" % egress, "n%d" % e["prio"], "x" + e["cluster6"]])
 
 
 def rec_op(key, flow_type, corr_tok, start, end, stats, reason=2, tcp="ESTABLISHED"):
